@@ -1,6 +1,6 @@
 (* C16: the statements proved from the invariant, and the refutation schedules for colliding ids. *)
 From Coq Require Import List Arith NArith Bool Lia Permutation.
-From GS Require Import LTS Cluster ClusterLTS ClusterPlan ClusterRun ClusterInv ClusterStep.
+From GS Require Import LTS Cluster ClusterLTS ClusterPlan ClusterFix ClusterFixPlan ClusterRun ClusterInv ClusterStep.
 Import ListNotations.
 Open Scope N_scope.
 
@@ -18,11 +18,11 @@ Definition returned_pc (p : pc) : bool := match p with PFin | PRet => true | _ =
 (* GetServerCount (the value the model allows LCount to report) = servers started and not stopped
    (+ entries that never got a server: only left behind by a cancelled restart delay) *)
 Lemma count_ok d ls s :
-  run (step false) (init d) ls = Some s -> s_hyg s = true -> idle_pc (s_pc s) = true ->
+  run (step true) (init d) ls = Some s -> idle_pc (s_pc s) = true ->
   s_stopping s = [] /\
   count (s_entries s) = (length (s_live s) + length (no_rt (s_entries s)))%nat.
 Proof.
-  intros Hr Hh Hp. destruct (Inv_reachable d ls s Hr Hh) as (_ & _ & Hpc). unfold acct_pc, lv, sp in Hpc.
+  intros Hr Hp. destruct (acct_reachable d ls s Hr) as (_ & _ & Hpc). unfold acct_pc, lv, sp in Hpc.
   destruct (s_pc s); try discriminate.
   - destruct Hpc as (_ & Hperm & Hsp & _). split; [now apply map_eq_nil in Hsp|].
     unfold count. rewrite length_rts. f_equal. rewrite <- (Permutation_length Hperm). apply map_length.
@@ -32,26 +32,26 @@ Qed.
 
 (* when Run returns nothing that was started is still unstopped, and the collection is empty *)
 Lemma none_leaked d ls s :
-  run (step false) (init d) ls = Some s -> s_hyg s = true -> returned_pc (s_pc s) = true ->
+  run (step true) (init d) ls = Some s -> returned_pc (s_pc s) = true ->
   s_live s = [] /\ s_stopping s = [] /\ s_entries s = [].
 Proof.
-  intros Hr Hh Hp. destruct (Inv_reachable d ls s Hr Hh) as (_ & _ & Hpc). unfold acct_pc, lv, sp in Hpc.
+  intros Hr Hp. destruct (acct_reachable d ls s Hr) as (_ & _ & Hpc). unfold acct_pc, lv, sp in Hpc.
   destruct (s_pc s); try discriminate; destruct Hpc as (Hl & Hsp & He); apply map_eq_nil in Hl, Hsp; auto.
 Qed.
 
 (* at every point of every schedule the running instances carry distinct numbers below the counter,
    and while the loop is idle they are exactly the runtimes recorded in the collection *)
 Lemma running_are_recorded d ls s :
-  run (step false) (init d) ls = Some s -> s_hyg s = true ->
+  run (step true) (init d) ls = Some s ->
   NoDup (map fst (s_live s)) /\
   (s_pc s = PIdle -> NoDup (keys (s_entries s)) /\ Permutation (map fst (s_live s)) (rts (s_entries s))).
 Proof.
-  intros Hr Hh. destruct (Inv_reachable d ls s Hr Hh) as (Hnd & _ & Hpc). split; [exact Hnd|].
+  intros Hr. destruct (acct_reachable d ls s Hr) as (Hnd & _ & Hpc). split; [exact Hnd|].
   intros E. unfold acct_pc in Hpc. rewrite E in Hpc. destruct Hpc as (Hk & Hp & _). now split.
 Qed.
 
-(* ---------------------------------------------------------------- the plan's contents under hygiene *)
-Lemma converge_plan ord cur des :
+(* ---------------------------------------------------------------- the LEGACY plan's contents under hygiene *)
+Lemma converge_plan_legacy_hygienic ord cur des :
   NoDup (keys cur) -> NoDup (keys des) -> hygienic (ids_of cur des) -> Permutation ord (keys cur) ->
   let pend := build_pending false ord cur des in
   NoDup (keys pend) /\ Permutation (rts pend) (rts cur) /\
@@ -83,6 +83,35 @@ Proof.
   - intros k old i Hl. apply plan_removed; eauto.
   - intros k d. now apply plan_new.
   - intros q e Hin. apply plan_only in Hin as [(k & old & _ & H1 & H2)|H]; [left; now exists k, old|now right].
+Qed.
+
+(* ---------------------------------------------------------------- the repaired plan's contents, any ids *)
+Lemma converge_plan ord cur des :
+  NoDup (keys cur) -> NoDup (keys des) -> Permutation ord (keys cur) ->
+  let pend := build_pending true ord cur des in
+  NoDup (keys pend) /\ Permutation (rts pend) (rts cur) /\
+  (forall k old, lookup k cur = Some old -> dcfg des k = Some (e_cfg old) ->
+                 lookup k pend = Some (set_act ANone old)) /\
+  (forall k old c i, lookup k cur = Some old -> dcfg des k = Some c -> e_cfg old <> c -> e_rt old = Some i ->
+     (exists q, lookup q pend = Some (set_act AStop old) /\ ~ In q (keys cur) /\ ~ In q (keys des)) /\
+     lookup k pend = Some (start_entry k c)) /\
+  (forall k old c, lookup k cur = Some old -> dcfg des k = Some c -> e_cfg old <> c -> e_rt old = None ->
+                   lookup k pend = Some (start_entry k c)) /\
+  (forall k old i, lookup k cur = Some old -> dcfg des k = None -> e_rt old = Some i ->
+                   lookup k pend = Some (set_act AStop old)) /\
+  (forall k d, lookup k des = Some d -> lookup k cur = None -> lookup k pend = Some (start_entry k (e_cfg d))) /\
+  (forall q e, In (q, e) pend ->
+     (exists k old q0, lookup k cur = Some old /\ In (q0, e) (process_existing k old (dcfg des k)) /\
+                       (q = q0 \/ (e_act e = AStop /\ ~ In q (keys cur) /\ ~ In q (keys des)))) \/
+     (exists d, In (q, d) des /\ mem q cur = false /\ e = start_entry q (e_cfg d))).
+Proof.
+  intros Hc Hd Hp pend. unfold pend.
+  split; [now apply true_nodup|]. split; [now apply true_conserves|].
+  split; [intros k old H1 H2; now apply true_unchanged|].
+  split; [intros k old c i H1 H2 H3 H4; now apply (true_changed_running ord cur des Hc Hd Hp k old c i)|].
+  split; [intros k old c H1 H2 H3 H4; now apply (true_changed_idle ord cur des Hc Hd Hp k old c)|].
+  split; [intros k old i H1 H2 H3; now apply (true_removed ord cur des Hc Hd Hp k old i)|].
+  split; [intros k d H1 H2; now apply true_new|]. intros q e. now apply true_only.
 Qed.
 
 (* ---------------------------------------------------------------- refutation on the protocol (F9) *)
